@@ -68,7 +68,10 @@ IterClauses(s, r) ==
      If(r.nrows = 1 /\ "M" \in fl /\ ~r.nearSonic, "C15.NotWithinOneStep") \cup
      If(s.req.timed /\ ~r.gapOK, "C03.TimeGap") \cup
      If(r.nrows = 1 /\ Range(r.rowViolLo) # {}, "C04.EarlierRowViolatesLimit") \cup
-     If(r.rep > 1 /\ (fl # {} \/ r.nrows # 0 \/ MustFlags(after, o, s.req) # {} \/ s.req.timed), "Trace.RunLength")
+     \* a run-length encoded line stands for rep identical iterations: the state reached after the first must be a
+     \* fixed point; a flag the controller still owes after it is owed in every one of them
+     (IF r.rep > 1 THEN {Missing(f) : f \in MustFlags(after, o, s.req)} ELSE {}) \cup
+     If(r.rep > 1 /\ (fl # {} \/ r.nrows # 0 \/ s.req.timed), "Trace.RunLength")
 
 OnIter(s, r) ==
   LET fl == Range(r.fl) IN
